@@ -8,6 +8,7 @@ import (
 	"fmt"
 	"math"
 	"os"
+	"os/user"
 	"path/filepath"
 	"reflect"
 	"sort"
@@ -59,6 +60,8 @@ type vxCfg struct {
 	Window    int    `json:"window,omitempty"` // rpmRollingWindowSize (default 1)
 	StartPwm  int    `json:"startPwm"`         // initial device pwm
 	StartMode int    `json:"startMode"`        // initial pwm_enable
+	// HomeRel: file fan whose path and rpmPath are written home-relative ("~/..."), a documented form of the file back-end
+	HomeRel bool `json:"homeRel,omitempty"`
 }
 
 func (c vxCfg) String() string {
@@ -208,6 +211,21 @@ func vxNewFixRole(cfg vxCfg, role string) *vxFix {
 		if !cfg.NoRpm {
 			fx.dev.Rpm = fx.fs.Add("filefan/rpm", 0)
 			fc.File.RpmPath = fx.dev.Rpm
+		}
+		if cfg.HomeRel {
+			// "~" + enough ".." to climb out of the home directory + the absolute path: resolves to the same file
+			up := ""
+			if u, err := user.Current(); err == nil {
+				for _, part := range strings.Split(strings.Trim(u.HomeDir, "/"), "/") {
+					if part != "" {
+						up += "/.."
+					}
+				}
+			}
+			fc.File.Path = "~" + up + fx.dev.Pwm
+			if fc.File.RpmPath != "" {
+				fc.File.RpmPath = "~" + up + fx.dev.Rpm
+			}
 		}
 	default:
 		panic("kind " + cfg.Kind)
